@@ -51,7 +51,6 @@ Arguments last_opt {A}.
 Section RBTreeP.
 Variable A : Type.
 Variable cmp : A -> A -> comparison.
-Variable ideq : A -> A -> bool.
 
 Notation tree := (RBTree.tree A).
 Notation path := (RBTree.path A).
@@ -764,4 +763,496 @@ Proof.
   split; [|exact Hi']. split; [|exact Hsh]. rewrite Hi'. now apply remove_nth_sorted.
 Qed.
 
+(* ---------- rb_prev / rb_next ---------- *)
+Lemma inorder_node_nonnil c (l : tree) k r : inorder (Node c l k r) <> [].
+Proof. cbn [inorder]. destruct (inorder l); discriminate. Qed.
+
+Lemma max_key_spec (t : tree) : max_key t = last_opt (inorder t).
+Proof.
+  induction t as [|c l _ k r IHr]; [reflexivity|]. cbn [max_key inorder].
+  rewrite last_opt_app, last_opt_cons. destruct r as [|rc rl rk rr]; [reflexivity|].
+  rewrite IHr. destruct (last_opt (inorder (Node rc rl rk rr))) eqn:E; [reflexivity|].
+  apply last_opt_none in E. destruct (inorder_node_nonnil _ _ _ _ E).
+Qed.
+
+Lemma min_key_spec (t : tree) : min_key t = hd_error (inorder t).
+Proof.
+  induction t as [|c l IHl k r _]; [reflexivity|]. cbn [min_key inorder].
+  destruct l as [|lc ll lk lr]; [reflexivity|]. rewrite IHl.
+  destruct (inorder (Node lc ll lk lr)) eqn:E; [destruct (inorder_node_nonnil _ _ _ _ E)|reflexivity].
+Qed.
+
+Lemma up_prev_spec (p : path) : up_prev p = last_opt (before p).
+Proof.
+  induction p as [|[c k r|c l k] p IH]; cbn [up_prev before]; [reflexivity|exact IH|].
+  rewrite app_assoc, last_opt_snoc. reflexivity.
+Qed.
+
+Lemma up_next_spec (p : path) : up_next p = hd_error (after p).
+Proof. induction p as [|[c k r|c l k] p IH]; cbn [up_next after]; [reflexivity|reflexivity|exact IH]. Qed.
+
+(* rb_prev(rbn) is the node that precedes rbn in the in-order sequence, rb_next(rbn) the one that follows *)
+Lemma rb_prev_spec (p : path) c (l : tree) k r :
+  rb_prev p (Node c l k r) = last_opt (before p ++ inorder l).
+Proof.
+  cbn [rb_prev]. rewrite last_opt_app. destruct l as [|lc ll lk lr].
+  - cbn. apply up_prev_spec.
+  - rewrite max_key_spec. destruct (last_opt (inorder (Node lc ll lk lr))) eqn:E; [reflexivity|].
+    apply last_opt_none in E. destruct (inorder_node_nonnil _ _ _ _ E).
+Qed.
+
+Lemma rb_next_spec (p : path) c (l : tree) k r :
+  rb_next p (Node c l k r) = hd_error (inorder r ++ after p).
+Proof.
+  cbn [rb_next]. destruct r as [|rc rl rk rr].
+  - cbn. apply up_next_spec.
+  - rewrite min_key_spec. destruct (inorder (Node rc rl rk rr)) eqn:E; [destruct (inorder_node_nonnil _ _ _ _ E)|reflexivity].
+Qed.
+
+(* ---------- rb_find ---------- *)
+Section Find.
+Variable ideq : A -> A -> bool.
+Hypothesis ideq_spec : forall a b, ideq a b = true <-> a = b.
+
+Lemma ideq_refl a : ideq a a = true.
+Proof. now apply ideq_spec. Qed.
+
+Lemma find_pivot_some (t : tree) x : forall (p p' : path) nd,
+  find_pivot cmp t x p = Some (p', nd) ->
+  exists c l k r, nd = Node c l k r /\ cmp k x = Eq /\
+    before p' ++ inorder nd ++ after p' = before p ++ inorder t ++ after p.
+Proof.
+  induction t as [|c l IHl k r IHr]; intros p p' nd H; cbn [find_pivot] in H; [discriminate|].
+  destruct (cmp k x) eqn:E.
+  - injection H as <- <-. exists c, l, k, r. auto.
+  - apply IHr in H. destruct H as (c' & l' & k' & r' & -> & Ek & H). exists c', l', k', r'.
+    repeat split; [exact Ek|]. rewrite H. cbn [before after inorder]. lnorm. reflexivity.
+  - apply IHl in H. destruct H as (c' & l' & k' & r' & -> & Ek & H). exists c', l', k', r'.
+    repeat split; [exact Ek|]. rewrite H. cbn [before after inorder]. lnorm. reflexivity.
+Qed.
+
+Lemma find_pivot_none (t : tree) x : forall p : path,
+  sorted (inorder t) -> find_pivot cmp t x p = None -> forall y, In y (inorder t) -> cmp y x <> Eq.
+Proof.
+  induction t as [|c l IHl k r IHr]; intros p Hs H y Hy; [destruct Hy|].
+  cbn [find_pivot] in H. cbn [inorder] in Hs, Hy. apply sorted_app in Hs. destruct Hs as (Sl & Skr & Hlk).
+  cbn [sorted] in Skr. destruct Skr as (Hkr & Sr). rewrite Forall_forall in Hkr.
+  apply in_app_or in Hy. destruct (cmp k x) eqn:E; [discriminate| |].
+  - (* k < x: right *)
+    assert (Hxk : cmp x k = Gt) by (rewrite cmp_antisym, E; reflexivity).
+    destruct Hy as [Hy|[<-|Hy]].
+    + intro Ey. apply (proj2 (not_le_gt x k) Hxk). apply (cmp_trans x y k).
+      * unfold le. rewrite cmp_antisym, Ey. discriminate.
+      * apply Hlk; [exact Hy|left; reflexivity].
+    + congruence.
+    + exact (IHr _ Sr H y Hy).
+  - (* k > x: left *)
+    destruct Hy as [Hy|[<-|Hy]].
+    + exact (IHl _ Sl H y Hy).
+    + congruence.
+    + intro Ey. apply (proj2 (not_le_gt k x) E). apply (cmp_trans k y x); [exact (Hkr y Hy)|].
+      unfold le. rewrite Ey. discriminate.
+Qed.
+
+Lemma scan_eq_sound l x : forall j, scan_eq cmp ideq l x = Some j -> nth_error l j = Some x.
+Proof.
+  induction l as [|y l IH]; intros j H; cbn [scan_eq] in H; [discriminate|].
+  destruct (cmp y x); try discriminate. destruct (ideq y x) eqn:E.
+  - injection H as <-. apply ideq_spec in E. subst y. reflexivity.
+  - destruct (scan_eq cmp ideq l x) as [j'|]; [|discriminate]. injection H as <-. cbn. now apply IH.
+Qed.
+
+Lemma scan_eq_complete l1 l2 x :
+  Forall (fun y => cmp y x = Eq) l1 -> exists j, scan_eq cmp ideq (l1 ++ x :: l2) x = Some j.
+Proof.
+  induction 1 as [|y l1 Hy _ IH]; cbn [app scan_eq].
+  - rewrite cmp_refl, ideq_refl. now exists 0.
+  - rewrite Hy. destruct (ideq y x); [now exists 0|]. destruct IH as (j & ->). now exists (S j).
+Qed.
+
+Lemma nth_error_rev (l : list A) : forall j x,
+  nth_error (rev l) j = Some x -> nth_error l (length l - 1 - j) = Some x /\ j < length l.
+Proof.
+  induction l as [|a l IH]; intros j x H; [destruct j; discriminate|].
+  cbn [rev] in H. destruct (Nat.lt_ge_cases j (length (rev l))) as [Hj|Hj].
+  - rewrite nth_error_app1 in H by assumption. apply IH in H. destruct H as (H & Hl).
+    cbn [length]. split; [|lia]. replace (S (length l) - 1 - j) with (S (length l - 1 - j)) by lia. exact H.
+  - rewrite nth_error_app2 in H by assumption. rewrite rev_length in *.
+    destruct (j - length l) as [|d] eqn:Ed; [|destruct d; discriminate]. injection H as <-.
+    cbn [length]. replace (S (length l) - 1 - j) with 0 by lia. split; [reflexivity|lia].
+Qed.
+
+(* a node found by rb_find is the node looked for *)
+Theorem rb_find_sound (t : tree) x i : rb_find cmp ideq t x = Some i -> nth_error (inorder t) i = Some x.
+Proof.
+  unfold rb_find. destruct t as [|c0 l0 k0 r0]; [discriminate|].
+  destruct (ideq k0 x) eqn:E0.
+  { intros [= <-]. apply ideq_spec in E0. subst k0. cbn [inorder]. rewrite size_inorder. apply nth_error_mid. }
+  destruct (find_pivot cmp (Node c0 l0 k0 r0) x []) as [[p nd]|] eqn:Ep; [|discriminate].
+  apply find_pivot_some in Ep. destruct Ep as (c & l & k & r & -> & Ek & Heq).
+  cbn [before after app] in Heq. rewrite app_nil_r in Heq. rewrite <- Heq.
+  set (bef := before p ++ inorder l). set (aft := inorder r ++ after p).
+  assert (Hsplit : before p ++ inorder (Node c l k r) ++ after p = bef ++ k :: aft)
+    by (subst bef aft; cbn [inorder]; lnorm; reflexivity).
+  rewrite Hsplit. destruct (ideq k x) eqn:Ekx.
+  { intros [= <-]. apply ideq_spec in Ekx. subst k. apply nth_error_mid. }
+  destruct (scan_eq cmp ideq (rev bef) x) as [j|] eqn:Eb.
+  { intros [= <-]. apply scan_eq_sound, nth_error_rev in Eb. destruct Eb as (Eb & Hj).
+    rewrite nth_error_app1 by lia. exact Eb. }
+  destruct (scan_eq cmp ideq aft x) as [j|] eqn:Ea; [|discriminate].
+  intros [= <-]. apply scan_eq_sound in Ea. rewrite nth_error_app2 by lia.
+  replace (length bef + 1 + j - length bef) with (S j) by lia. exact Ea.
+Qed.
+
+(* rb_find finds every node that is in the tree *)
+Theorem rb_find_complete (t : tree) x :
+  sorted (inorder t) -> In x (inorder t) -> exists i, rb_find cmp ideq t x = Some i.
+Proof.
+  intros Hs Hin. unfold rb_find. destruct t as [|c0 l0 k0 r0]; [destruct Hin|].
+  destruct (ideq k0 x); [eexists; reflexivity|].
+  destruct (find_pivot cmp (Node c0 l0 k0 r0) x []) as [[p nd]|] eqn:Ep.
+  2:{ exfalso. exact (find_pivot_none _ x [] Hs Ep x Hin (cmp_refl x)). }
+  apply find_pivot_some in Ep. destruct Ep as (c & l & k & r & -> & Ek & Heq).
+  cbn [before after app] in Heq. rewrite app_nil_r in Heq. rewrite <- Heq in Hs, Hin.
+  set (bef := before p ++ inorder l). set (aft := inorder r ++ after p).
+  assert (Hsplit : before p ++ inorder (Node c l k r) ++ after p = bef ++ k :: aft)
+    by (subst bef aft; cbn [inorder]; lnorm; reflexivity).
+  rewrite Hsplit in Hs, Hin. clear Hsplit Heq.
+  apply sorted_app in Hs. destruct Hs as (Sb & Ska & Hbk). cbn [sorted] in Ska. destruct Ska as (Hka & Sa).
+  rewrite Forall_forall in Hka.
+  assert (Hkx : le k x) by (unfold le; rewrite Ek; discriminate).
+  assert (Hxk : le x k) by (unfold le; rewrite cmp_antisym, Ek; discriminate).
+  destruct (ideq k x) eqn:Ekx; [eexists; reflexivity|].
+  destruct (scan_eq cmp ideq (rev bef) x) as [j|] eqn:Eb; [eexists; reflexivity|].
+  destruct (scan_eq cmp ideq aft x) as [j|] eqn:Ea; [eexists; reflexivity|].
+  exfalso. apply in_app_or in Hin. destruct Hin as [Hin|[Hin|Hin]].
+  - apply in_split in Hin. destruct Hin as (b1 & b2 & Hb). rewrite Hb in Eb, Sb, Hbk.
+    rewrite rev_app_distr in Eb. cbn [rev] in Eb. rewrite <- app_assoc in Eb. cbn [app] in Eb.
+    destruct (scan_eq_complete (rev b2) (rev b1) x) as (j & Ej); [|congruence].
+    apply Forall_forall. intros y Hy. apply in_rev in Hy.
+    apply sorted_app in Sb. destruct Sb as (_ & Sxb & _). cbn [sorted] in Sxb. destruct Sxb as (Hxb & _).
+    rewrite Forall_forall in Hxb. apply le_le_eq; [|exact (Hxb y Hy)].
+    apply (cmp_trans y k x); [|exact Hkx]. apply Hbk; [apply in_or_app; right; right; exact Hy|left; reflexivity].
+  - subst k. rewrite ideq_refl in Ekx. discriminate.
+  - apply in_split in Hin. destruct Hin as (a1 & a2 & Ha). rewrite Ha in Ea, Sa, Hka.
+    destruct (scan_eq_complete a1 a2 x) as (j & Ej); [|congruence].
+    apply Forall_forall. intros y Hy.
+    apply sorted_app in Sa. destruct Sa as (_ & _ & Hax).
+    apply le_le_eq; [apply Hax; [exact Hy|left; reflexivity]|].
+    apply (cmp_trans x k y); [exact Hxk|]. apply Hka. apply in_or_app. left. exact Hy.
+Qed.
+
+End Find.
+
+(* ---------- height ---------- *)
+Lemma rbh_size (t : tree) : forall n, rbh t n -> 2 ^ n <= size t + 1.
+Proof.
+  induction t as [|c l IHl k r IHr]; intros n H; cbn [rbh size] in *.
+  - subst n. cbn. lia.
+  - destruct c.
+    + destruct H as (_ & _ & Hl & Hr). specialize (IHl n Hl). lia.
+    + destruct n as [|m]; [destruct H|]. destruct H as (Hl & Hr). specialize (IHl m Hl). specialize (IHr m Hr).
+      rewrite Nat.pow_succ_r'. lia.
+Qed.
+
+Lemma rbh_height (t : tree) : forall n, rbh t n -> height t <= 2 * n + (if is_red t then 1 else 0).
+Proof.
+  induction t as [|c l IHl k r IHr]; intros n H; cbn [rbh height is_red] in *.
+  - lia.
+  - destruct c.
+    + destruct H as (Hnl & Hnr & Hl & Hr). specialize (IHl n Hl). specialize (IHr n Hr).
+      rewrite Hnl in IHl. rewrite Hnr in IHr. lia.
+    + destruct n as [|m]; [destruct H|]. destruct H as (Hl & Hr). specialize (IHl m Hl). specialize (IHr m Hr).
+      destruct (is_red l), (is_red r); lia.
+Qed.
+
+Theorem rb_height_log (t : tree) : rb_shape t -> height t <= 2 * Nat.log2 (size t + 1).
+Proof.
+  intros (Hnr & n & Hn). pose proof (rbh_height t n Hn) as Hh. rewrite Hnr in Hh.
+  pose proof (rbh_size t n Hn) as Hs. apply Nat.log2_le_pow2 in Hs; lia.
+Qed.
+
+(* ---------- histories ---------- *)
+Lemma stable_insert_length l x : length (stable_insert l x) = S (length l).
+Proof. induction l as [|y l IH]; cbn [Sorted.stable_insert length]; [reflexivity|]. destruct (cmp y x); cbn [length]; lia. Qed.
+
+Lemma remove_nth_length (l : list A) : forall i, i < length l -> length (remove_nth i l) = length l - 1.
+Proof.
+  induction l as [|y l IH]; intros i Hi; cbn [length] in *; [lia|].
+  destruct i as [|i]; cbn [remove_nth length]; [lia|]. rewrite IH by lia. lia.
+Qed.
+
+Lemma rb_inv_leaf : rb_inv (@Leaf A).
+Proof. split; [exact I|]. split; [reflexivity|]. exists 0. reflexivity. Qed.
+
+Lemma rb_history_gen (ops : list (op A)) : forall (t : tree),
+  rb_inv t -> ops_valid ops (size t) ->
+  exists t', fold_left (rb_step cmp) ops (Some t) = Some t' /\ rb_inv t' /\
+             inorder t' = fold_left (seq_step cmp) ops (inorder t).
+Proof.
+  induction ops as [|o ops IH]; intros t Hinv Hv; cbn [fold_left].
+  - exists t. auto.
+  - destruct o as [x|i]; cbn [ops_valid] in Hv; cbn [rb_step seq_step].
+    + destruct (rb_insert_inv t x Hinv) as (t1 & -> & Hinv1 & Hi1). rewrite <- Hi1. apply IH; [exact Hinv1|].
+      rewrite size_inorder, Hi1, stable_insert_length, <- size_inorder. exact Hv.
+    + destruct Hv as (Hi & Hv). destruct (rb_remove_inv t i Hinv Hi) as (t1 & -> & Hinv1 & Hi1).
+      rewrite <- Hi1. apply IH; [exact Hinv1|].
+      rewrite size_inorder, Hi1, remove_nth_length, <- size_inorder by (rewrite <- size_inorder; exact Hi). exact Hv.
+Qed.
+
+(* any history of inserts and removals starting from the empty tree: no NULL dereference, the result is
+   a red-black search tree, and its in-order sequence is the history replayed on the abstract sequence *)
+Theorem rb_history (ops : list (op A)) :
+  ops_valid ops 0 ->
+  exists t, rb_run cmp ops = Some t /\ rb_inv t /\ inorder t = seq_run cmp ops /\ sorted (seq_run cmp ops).
+Proof.
+  intro Hv. destruct (rb_history_gen ops Leaf rb_inv_leaf Hv) as (t & E & Hinv & Hi).
+  exists t. repeat split; try assumption; try (destruct Hinv as (? & ? & ?); assumption).
+  unfold seq_run. cbn [inorder] in Hi. rewrite <- Hi. exact (proj1 Hinv).
+Qed.
+
+(* ---------- insertion order does not matter when no two keys compare equal ---------- *)
+Lemma sorted_perm_unique (a : list A) : forall b,
+  sorted a -> sorted b -> Permutation a b ->
+  (forall x y, In x a -> In y a -> cmp x y = Eq -> x = y) -> a = b.
+Proof.
+  induction a as [|x a IH]; intros b Sa Sb Hp Hd.
+  - apply Permutation_nil in Hp. now subst b.
+  - destruct b as [|y b]; [apply Permutation_sym, Permutation_nil in Hp; discriminate|].
+    cbn [sorted] in Sa, Sb. destruct Sa as (Hxa & Sa). destruct Sb as (Hyb & Sb).
+    rewrite Forall_forall in Hxa, Hyb.
+    assert (Hxy : x = y).
+    { assert (Hx : In x (y :: b)) by (apply (Permutation_in _ Hp); left; reflexivity).
+      assert (Hy : In y (x :: a)) by (apply (Permutation_in _ (Permutation_sym Hp)); left; reflexivity).
+      destruct Hx as [Hx|Hx]; [now symmetry|]. destruct Hy as [Hy|Hy]; [assumption|].
+      apply Hd; [left; reflexivity|right; exact Hy|]. apply le_le_eq; [exact (Hxa y Hy)|exact (Hyb x Hx)]. }
+    subst y. f_equal. apply IH; try assumption.
+    + exact (Permutation_cons_inv Hp).
+    + intros u v Hu Hv. apply Hd; right; assumption.
+Qed.
+
+Lemma isort_gen_perm (l : list A) : forall acc, Permutation (l ++ acc) (fold_left stable_insert l acc).
+Proof.
+  induction l as [|x l IH]; intro acc; cbn [fold_left app]; [reflexivity|].
+  etransitivity; [|apply IH]. etransitivity; [apply Permutation_middle|].
+  apply Permutation_app_head. apply stable_insert_perm.
+Qed.
+
+Lemma isort_gen_sorted (l : list A) : forall acc, sorted acc -> sorted (fold_left stable_insert l acc).
+Proof. induction l as [|x l IH]; intros acc Hs; cbn [fold_left]; [exact Hs|]. apply IH. now apply stable_insert_sorted. Qed.
+
+Theorem isort_order_independent (l1 l2 : list A) :
+  Permutation l1 l2 -> (forall x y, In x l1 -> In y l1 -> cmp x y = Eq -> x = y) ->
+  isort cmp l1 = isort cmp l2.
+Proof.
+  intros Hp Hd. unfold isort. apply sorted_perm_unique.
+  - now apply isort_gen_sorted.
+  - now apply isort_gen_sorted.
+  - etransitivity; [symmetry; apply isort_gen_perm|]. etransitivity; [|apply isort_gen_perm].
+    now apply Permutation_app_tail.
+  - intros x y Hx Hy. apply Hd.
+    + apply (Permutation_in _ (Permutation_sym (isort_gen_perm l1 []))) in Hx. now rewrite app_nil_r in Hx.
+    + apply (Permutation_in _ (Permutation_sym (isort_gen_perm l1 []))) in Hy. now rewrite app_nil_r in Hy.
+Qed.
+
+Lemma rb_run_inserts (l : list A) :
+  exists t, rb_run cmp (map Ins l) = Some t /\ rb_inv t /\ inorder t = isort cmp l.
+Proof.
+  assert (Hv : forall n, ops_valid (map (@Ins A) l) n) by (induction l; intro n; cbn; auto).
+  destruct (rb_history (map Ins l) (Hv 0)) as (t & E & Hinv & Hi & _). exists t. repeat split; try assumption;
+    try (destruct Hinv as (? & ? & ?); assumption).
+  rewrite Hi. unfold seq_run, isort. generalize (@nil A). clear. induction l as [|x l IH]; intro acc; cbn; [reflexivity|apply IH].
+Qed.
+
+Theorem rb_insert_order_independent (l1 l2 : list A) :
+  Permutation l1 l2 -> (forall x y, In x l1 -> In y l1 -> cmp x y = Eq -> x = y) ->
+  exists t1 t2, rb_run cmp (map Ins l1) = Some t1 /\ rb_run cmp (map Ins l2) = Some t2 /\ inorder t1 = inorder t2.
+Proof.
+  intros Hp Hd. destruct (rb_run_inserts l1) as (t1 & E1 & _ & H1). destruct (rb_run_inserts l2) as (t2 & E2 & _ & H2).
+  exists t1, t2. repeat split; try assumption. rewrite H1, H2. now apply isort_order_independent.
+Qed.
+
+
+(* ---------- the executable checker rb_check decides the invariant (soundness) ---------- *)
+Lemma bheight_sound (t : tree) : forall n, bheight t = Some n -> rbh t n.
+Proof.
+  induction t as [|c l IHl k r IHr]; intros n H; cbn [bheight] in H.
+  - injection H as <-. reflexivity.
+  - destruct (bheight l) as [a|]; [|discriminate]. destruct (bheight r) as [b|]; [|discriminate].
+    destruct (Nat.eqb a b) eqn:E; [|discriminate]. apply Nat.eqb_eq in E. subst b.
+    specialize (IHl a eq_refl). specialize (IHr a eq_refl). destruct c.
+    + destruct (is_red l) eqn:El; [discriminate|]. destruct (is_red r) eqn:Er; [discriminate|].
+      cbn [orb] in H. injection H as <-. cbn [rbh]. auto.
+    + injection H as <-. cbn [rbh]. auto.
+Qed.
+
+Lemma sortedb_sound (l : list A) : sortedb cmp l = true -> sorted l.
+Proof.
+  induction l as [|x l IH]; intro H; [exact I|]. cbn [sortedb] in H. destruct l as [|y l]; [cbn; auto|].
+  destruct (cmp x y) eqn:E; try discriminate; specialize (IH H); cbn [sorted] in IH |- *; destruct IH as (Hy & Hs);
+    (split; [|split; assumption]); (constructor; [unfold le; congruence|]);
+    apply Forall_forall; intros z Hz; rewrite Forall_forall in Hy;
+    (apply (cmp_trans x y z); [unfold le; congruence|exact (Hy z Hz)]).
+Qed.
+
+Theorem rb_check_sound (t : tree) : rb_check cmp t = true -> rb_inv t.
+Proof.
+  unfold rb_check. intro H. apply andb_true_iff in H. destruct H as (H & Hs).
+  apply andb_true_iff in H. destruct H as (Hr & Hb). apply negb_true_iff in Hr.
+  destruct (bheight t) as [n|] eqn:E; [|discriminate].
+  split; [now apply sortedb_sound|]. split; [exact Hr|]. exists n. now apply bheight_sound.
+Qed.
+
+(* ---------- live elements: permutation and stability (equal keys stay in arrival order) ---------- *)
+Section Stable.
+Variable ideq : A -> A -> bool.
+Hypothesis ideq_spec : forall a b, ideq a b = true <-> a = b.
+
+Lemma ideq_false a b : ideq a b = false <-> a <> b.
+Proof. pose proof (ideq_spec a b). destruct (ideq a b); intuition congruence. Qed.
+
+Lemma remove_id_perm y (l : list A) : In y l -> Permutation l (y :: remove_id ideq y l).
+Proof.
+  induction l as [|z l IH]; intro Hin; [destruct Hin|]. cbn [remove_id].
+  destruct (ideq z y) eqn:E.
+  - apply ideq_spec in E. subst z. reflexivity.
+  - apply ideq_false in E. destruct Hin as [Hin|Hin]; [congruence|].
+    etransitivity; [apply perm_skip, IH, Hin|apply perm_swap].
+Qed.
+
+Lemma remove_nth_perm (l : list A) : forall i y, nth_error l i = Some y -> Permutation l (y :: remove_nth i l).
+Proof.
+  induction l as [|z l IH]; intros i y H; [destruct i; discriminate|].
+  destruct i as [|i]; cbn [nth_error remove_nth] in *.
+  - injection H as <-. reflexivity.
+  - etransitivity; [apply perm_skip, (IH i y H)|apply perm_swap].
+Qed.
+
+Lemma remove_nth_oob (l : list A) : forall i, nth_error l i = None -> remove_nth i l = l.
+Proof.
+  induction l as [|z l IH]; intros i H; [reflexivity|]. destruct i as [|i]; [discriminate|].
+  cbn [remove_nth]. f_equal. now apply IH.
+Qed.
+
+Lemma arrivals_perm_gen (ops : list (op A)) : forall sq arr,
+  Permutation sq arr -> Permutation (fold_left (seq_step cmp) ops sq) (arrivals cmp ideq ops sq arr).
+Proof.
+  induction ops as [|o ops IH]; intros sq arr Hp; cbn [fold_left arrivals]; [exact Hp|].
+  destruct o as [x|i]; cbn [seq_step].
+  - apply IH. etransitivity; [symmetry; apply stable_insert_perm|].
+    etransitivity; [apply perm_skip, Hp|apply Permutation_cons_append].
+  - destruct (nth_error sq i) as [y|] eqn:E.
+    + apply IH. apply (Permutation_cons_inv (a := y)).
+      etransitivity; [symmetry; apply remove_nth_perm, E|].
+      etransitivity; [exact Hp|]. apply remove_id_perm. apply (Permutation_in _ Hp). eapply nth_error_In, E.
+    + rewrite remove_nth_oob by assumption. now apply IH.
+Qed.
+
+Lemma filter_all_true (g : A -> bool) (l : list A) : (forall z, In z l -> g z = true) -> filter g l = l.
+Proof.
+  induction l as [|z l IH]; intro H; [reflexivity|]. cbn [filter]. rewrite (H z) by (left; reflexivity).
+  f_equal. apply IH. intros w Hw. apply H. right. exact Hw.
+Qed.
+
+Lemma filter_all_false (g : A -> bool) (l : list A) : (forall z, In z l -> g z = false) -> filter g l = [].
+Proof.
+  induction l as [|z l IH]; intro H; [reflexivity|]. cbn [filter]. rewrite (H z) by (left; reflexivity).
+  apply IH. intros w Hw. apply H. right. exact Hw.
+Qed.
+
+Lemma filter_comm (f g : A -> bool) (l : list A) : filter f (filter g l) = filter g (filter f l).
+Proof.
+  induction l as [|z l IH]; [reflexivity|]. cbn [filter].
+  destruct (g z) eqn:Eg, (f z) eqn:Ef; cbn [filter]; rewrite ?Eg, ?Ef, IH; reflexivity.
+Qed.
+
+Definition other (y z : A) : bool := negb (ideq z y).
+
+Lemma remove_nth_filter (l : list A) : forall i y,
+  NoDup l -> nth_error l i = Some y -> remove_nth i l = filter (other y) l.
+Proof.
+  induction l as [|z l IH]; intros i y Hnd H; [destruct i; discriminate|].
+  inversion Hnd as [|? ? Hz Hnd']; subst. destruct i as [|i]; cbn [nth_error remove_nth filter] in *.
+  - injection H as <-. unfold other at 1. rewrite (proj2 (ideq_spec z z) eq_refl). cbn [negb].
+    symmetry. apply filter_all_true. intros w Hw. unfold other. apply negb_true_iff, ideq_false. congruence.
+  - assert (Hzy : z <> y) by (intro; subst; apply Hz; eapply nth_error_In, H).
+    unfold other at 1. rewrite (proj2 (ideq_false z y) Hzy). cbn [negb]. f_equal. now apply IH.
+Qed.
+
+Lemma remove_id_filter (l : list A) y : NoDup l -> remove_id ideq y l = filter (other y) l.
+Proof.
+  induction l as [|z l IH]; intro Hnd; [reflexivity|]. inversion Hnd as [|? ? Hz Hnd']; subst.
+  cbn [remove_id filter]. unfold other at 1. destruct (ideq z y) eqn:E; cbn [negb].
+  - apply ideq_spec in E. subst z. symmetry. apply filter_all_true. intros w Hw. unfold other.
+    apply negb_true_iff, ideq_false. congruence.
+  - f_equal. now apply IH.
+Qed.
+
+Lemma filter_stable_insert x' sq x :
+  sorted sq ->
+  filter (same_key cmp x') (stable_insert sq x) = filter (same_key cmp x') sq ++ (if same_key cmp x' x then [x] else []).
+Proof.
+  intro Hs. destruct (stable_insert_split sq x Hs) as (l1 & l2 & -> & -> & F1 & F2).
+  rewrite !filter_app. cbn [filter]. destruct (same_key cmp x' x) eqn:Ex.
+  - assert (H2 : filter (same_key cmp x') l2 = []).
+    { apply filter_all_false. intros y Hy. rewrite Forall_forall in F2. specialize (F2 y Hy).
+      unfold same_key in *. destruct (cmp x x') eqn:Exx; try discriminate.
+      destruct (cmp y x') eqn:Eyx; try reflexivity. exfalso.
+      apply (proj2 (not_le_gt y x) F2). apply (cmp_trans y x' x).
+      - unfold le. rewrite Eyx. discriminate.
+      - unfold le. rewrite cmp_antisym, Exx. discriminate. }
+    rewrite H2, app_nil_r. reflexivity.
+  - rewrite app_nil_r. reflexivity.
+Qed.
+
+Lemma arrivals_stable_gen x' (ops : list (op A)) : forall sq arr,
+  sorted sq -> NoDup sq -> Permutation sq arr ->
+  filter (same_key cmp x') sq = filter (same_key cmp x') arr -> ops_fresh cmp ops sq ->
+  filter (same_key cmp x') (fold_left (seq_step cmp) ops sq) = filter (same_key cmp x') (arrivals cmp ideq ops sq arr).
+Proof.
+  induction ops as [|o ops IH]; intros sq arr Hs Hnd Hp Hf Hfr; cbn [fold_left arrivals]; [exact Hf|].
+  destruct o as [x|i]; cbn [seq_step ops_fresh] in *.
+  - destruct Hfr as (Hx & Hfr). apply IH; try assumption.
+    + now apply stable_insert_sorted.
+    + apply (Permutation_NoDup (stable_insert_perm sq x)). now constructor.
+    + etransitivity; [symmetry; apply stable_insert_perm|].
+      etransitivity; [apply perm_skip, Hp|apply Permutation_cons_append].
+    + rewrite filter_stable_insert by assumption. rewrite filter_app, Hf. cbn [filter].
+      destruct (same_key cmp x' x); reflexivity.
+  - destruct (nth_error sq i) as [y|] eqn:E.
+    + assert (Hnda : NoDup arr) by exact (Permutation_NoDup Hp Hnd).
+      apply IH; try assumption.
+      * now apply remove_nth_sorted.
+      * rewrite (remove_nth_filter sq i y Hnd E). now apply NoDup_filter.
+      * apply (Permutation_cons_inv (a := y)).
+        etransitivity; [symmetry; apply remove_nth_perm, E|].
+        etransitivity; [exact Hp|]. apply remove_id_perm. apply (Permutation_in _ Hp). eapply nth_error_In, E.
+      * rewrite (remove_nth_filter sq i y Hnd E), (remove_id_filter arr y Hnda).
+        rewrite filter_comm, Hf, filter_comm. reflexivity.
+    + rewrite remove_nth_oob in * by assumption. now apply IH.
+Qed.
+
+(* the in-order sequence after any history is a permutation of the live elements, and elements with
+   equal keys stand in the order in which they were inserted *)
+Theorem rb_history_stable (ops : list (op A)) :
+  ops_fresh cmp ops [] ->
+  Permutation (seq_run cmp ops) (arrivals cmp ideq ops [] []) /\
+  forall x, filter (same_key cmp x) (seq_run cmp ops) = filter (same_key cmp x) (arrivals cmp ideq ops [] []).
+Proof.
+  intro Hfr. split.
+  - apply arrivals_perm_gen. constructor.
+  - intro x. apply arrivals_stable_gen; try assumption; try constructor.
+Qed.
+
+End Stable.
+
 End RBTreeP.
+
+Arguments le {A}.
+Arguments sorted {A}.
+Arguments rbh {A}.
+Arguments rb_shape {A}.
+Arguments rb_inv {A}.
+Arguments pinv {A}.
+Arguments ok_under {A}.
+Arguments hd_black {A}.
